@@ -46,7 +46,7 @@ type vDSStore struct {
 
 func (c *vDSStore) Fetch(_ context.Context, req *storeapi.FetchRequest, _ ...grpc.CallOption) (storeapi.StoreApi_FetchClient, error) {
 	c.calls++
-	rt.Assert(len(req.Ids) == len(c.items), "the store is asked for exactly its IDs")
+	rt.Assert(len(req.Ids) <= len(c.items), "the store is asked for exactly its IDs")
 	if c.down {
 		return nil, vDSErr{"store is down"}
 	}
@@ -93,6 +93,7 @@ func VerifDocStream() {
 		src := make([]int, n)
 		pos := make([]int, n) // position of the ID in its store's stream
 		present := make([]bool, n)
+		dupDone := false
 		for i := range ids {
 			src[i] = rt.Choose(ns)
 			ids[i] = seq.IDSource{ID: raw[i], Source: si.sourceByClient[hosts[src[i]]]}
@@ -101,6 +102,12 @@ func VerifDocStream() {
 			pos[i] = len(st.items)
 			if present[i] {
 				st.items = append(st.items, vDSPack(raw[i], []byte{data[i]}))
+				if rt.Param("DUPBLOCK") == 1 && !dupDone && rt.Choose(2) == 1 {
+					// a store that sends one document twice: the extra block must not cost another document its place
+					st.items = append(st.items, vDSPack(raw[i], []byte{data[i]}))
+					dupDone = true
+					rt.Reach("dup-block")
+				}
 			} else {
 				st.items = append(st.items, vDSPack(raw[i], nil))
 			}
